@@ -512,7 +512,11 @@ func c20MaterializeWitness(w c20WitSpec, dir string, r *rand.Rand) error {
 			mdir = "mirror/" + c20RenamedHash(o.Origin)
 		}
 		tiles := map[string]c19File{}
-		c19MirrorTileFiles(ml, o.MirrorSize, mdir+"/", tiles, false)
+		if o.MirrorSize%2 == 1 { // entry bundles are not read by the health check; keep them on half of the sizes
+			c19MirrorTileFiles(ml, o.MirrorSize, mdir+"/", tiles, false)
+		} else {
+			c19MirrorTileFilesKinds(ml, o.MirrorSize, mdir+"/", tiles, false)
+		}
 		var partial []string
 		for p, f := range tiles {
 			if strings.HasSuffix(f.Kind, "hash-partial") {
@@ -1080,11 +1084,7 @@ func TestVerifC20Functions(t *testing.T) {
 		ex := c20Expected(st)
 		margin := c20SelfCheck(rt, st, ex, dirOf, now)
 		if margin < 1500*time.Millisecond {
-			for _, l := range st.Logs {
-				if !l.Recent {
-					c19Inconclusive(rt, "harness generated a state %v away from a wall-clock threshold: %s", margin, st)
-				}
-			}
+			c19Inconclusive(rt, "harness generated a state %v away from a wall-clock threshold: %s", margin, st)
 		}
 
 		for _, l := range st.Logs {
@@ -1206,7 +1206,9 @@ func TestVerifC20HealthBinary(t *testing.T) {
 			c19Inconclusive(rt, "materialize: %v", err)
 		}
 		ex := c20Expected(st)
-		c20SelfCheck(rt, st, ex, dirOf, now)
+		if margin := c20SelfCheck(rt, st, ex, dirOf, now); margin < 1500*time.Millisecond {
+			c19Inconclusive(rt, "harness generated a state %v away from a wall-clock threshold: %s", margin, st)
+		}
 		resp := c19Do(rt, srv, conn, c19RawRequest("GET", "/health", "health.c20.test"), "GET")
 		elapsed := time.Since(now)
 		body := string(resp.Body)
